@@ -118,6 +118,20 @@ func main() {
 	keyAlpha := []byte{'a', 'b', '-', ']', '\\'}
 	pats := enumerate(patAlpha, o.Pick(4, 6))
 	keys := enumerate(keyAlpha, o.Pick(3, 4))
+	// ranges inside classes over a wider alphabet, both ways round, with subjects inside, at and outside the bounds
+	rangeBytes := []byte{'0', '5', '9', 'a', 'c', 'x', '-', '[', '?', 0x01, 0xfe}
+	for _, x := range rangeBytes {
+		for _, y := range rangeBytes {
+			if x == y || x == '-' || y == '-' {
+				continue
+			}
+			rg := string([]byte{x, '-', y})
+			pats = append(pats, "["+rg+"]", "[^"+rg+"]", "k["+rg+"]", "["+rg+"]*", "*["+rg+"]", "["+rg+"q]", "[q"+rg+"]z", "*["+rg+"]*")
+		}
+	}
+	for _, b := range []byte{'0', '4', '5', '9', 'a', 'b', 'c', 'z', '-', '[', '?', 'x', 'q', 0x00, 0x01, 0x02, 0xfe, 0xff, '~'} {
+		keys = append(keys, string([]byte{b}), "k"+string([]byte{b}), string([]byte{b})+"zz", "zz"+string([]byte{b}), string([]byte{b})+"z")
+	}
 
 	var decided, unspecified, pairs int64
 	var mu sync.Mutex
@@ -160,12 +174,16 @@ func main() {
 						report(witness{Kind: "panic", Pattern: p, Key: k, Got: pan, Want: "no panic", Sig: "panic|" + cl})
 						continue
 					}
-					if unspec {
+					verdict := model.Glob(p, k)
+					if verdict == model.GlobUnspecified {
 						u++
 						continue
 					}
+					if unspec {
+						local["reversed range, subject outside every reading"]++
+					}
 					d++
-					want := model.Glob(p, k) == model.GlobYes
+					want := verdict == model.GlobYes
 					if got != want {
 						report(witness{Kind: "mismatch", Pattern: p, Key: k, Want: fmt.Sprint(want), Got: fmt.Sprint(got), Sig: fmt.Sprintf("mismatch|%s|want=%v", cl, want)})
 					}
